@@ -205,6 +205,9 @@
  * <tr><td colspan='3'>If a save frame terminator is encountered outside the scope of a save frame, the parser recovers
  *     by ignoring it.  This condition cannot be distinguished from the alternative that a save frame header is given
  *     without any frame code.</td></tr>
+ * <tr><td>Invalid data name</td><td>@c CIF_INVALID_ITEMNAME</td><td>parse and drop the item</td></tr>
+ * <tr><td colspan='3'>A lone underscore is scanned as a data name, but it is not a valid one.  It and its associated
+ *     value(s) are dropped, including when it appears in a loop header.</td></tr>
  * <tr><td>Duplicate data name</td><td>@c CIF_DUP_ITEMNAME</td><td>parse and drop the item</td></tr>
  * <tr><td colspan='3'>If a duplicate item name is encountered then it and its associated value(s) are dropped,
  *     including when the duplicate appears in a loop.</td></tr>
@@ -1155,6 +1158,22 @@ static int parse_container(struct scanner_s *scanner, cif_container_tp *containe
                         name[token_length] = 0;
                         CONSUME_TOKEN(scanner);
     
+                        /* check for validity (a lone underscore scans as a data name, but it is not a valid one) */
+                        if (cif_normalize_item_name(name, -1, NULL, CIF_INVALID_ITEMNAME) == CIF_INVALID_ITEMNAME) {
+                            /* error: invalid data name */
+                            result = scanner->error_callback(CIF_INVALID_ITEMNAME, scanner->line,
+                                    scanner->column - TVALUE_LENGTH(scanner), TVALUE_START(scanner),
+                                    TVALUE_LENGTH(scanner), scanner->user_data);
+                            if (result != CIF_OK) {
+                                free(name);
+                                goto container_end;
+                            }
+                            /* recover by rejecting the item (but still parsing the associated value) */
+                            result = parse_item(scanner, container, NULL);
+                            free(name);
+                            break;
+                        }
+
                         /* check for dupes */
                         result = ((container == NULL) ? CIF_NOSUCH_ITEM
                                 : cif_container_get_item_loop(container, name, NULL));
@@ -1516,6 +1535,24 @@ static int parse_loop_header(struct scanner_s *scanner, cif_container_tp *contai
             } else {
                 u_strncpy((*next_namep)->string, token_value, token_length);
                 (*next_namep)->string[token_length] = 0;
+
+                /* check for validity (a lone underscore scans as a data name, but it is not a valid one) */
+                if (cif_normalize_item_name((*next_namep)->string, -1, NULL, CIF_INVALID_ITEMNAME)
+                        == CIF_INVALID_ITEMNAME) {
+                    /* error: invalid data name */
+                    if ((result = scanner->error_callback(CIF_INVALID_ITEMNAME, scanner->line,
+                            scanner->column - TVALUE_LENGTH(scanner), TVALUE_START(scanner),
+                            TVALUE_LENGTH(scanner), scanner->user_data)) != CIF_OK) {
+                        return result;
+                    }
+                    /* recover as for a duplicate name: ignore the name, and later its associated values */
+                    free((*next_namep)->string);
+                    (*next_namep)->string = NULL;
+                    next_namep = &((*next_namep)->next);
+                    *name_countp += 1;
+                    CONSUME_TOKEN(scanner);
+                    continue;
+                }
 
                 /* check for data name duplication */
                 result = ((container == NULL) ? CIF_NOSUCH_ITEM
